@@ -235,8 +235,9 @@ def coq_check_properties(pid, propfile):
     res["log"] = (o + "\n" + e)[-8000:]
     if rc == 0:
         # recompile the property file to capture assumptions (output to a private file: other checks may read the .vo)
-        tmpd = os.path.join(BUILD, "props_%s_%d" % (pid, os.getpid()))
-        os.makedirs(tmpd, exist_ok=True)
+        import tempfile
+        os.makedirs(BUILD, exist_ok=True)
+        tmpd = tempfile.mkdtemp(prefix="props_%s_" % pid, dir=BUILD)
         rc2, o2, e2 = sh(["coqc", "-Q", ".", "CV", "-w", "-notation-overridden,-deprecated,-ambiguous-paths",
                           "-o", os.path.join(tmpd, os.path.basename(rel)[:-2] + ".vo"), rel], cwd=COQ, timeout=1200)
         shutil.rmtree(tmpd, ignore_errors=True)
